@@ -484,6 +484,27 @@ def solve(hyps, goal_negated, timeout_ms=10000, want_model=True, len_terms=(), m
             s3.add(z3.ForAll(vs, fa.inst(*vs)))
         if s3.check() == z3.unsat:
             return _proved(s3, t0, "mbqi", len(insts))
+    if mode == "prove":
+        # last resort before giving up: the first stage again with a generous budget.  Its 4 s budget is sized for an
+        # idle machine; when all cores are busy a query that normally takes 1-2 s can miss it, and the verdict must
+        # not depend on the load (an `unknown` here would be reported as undecided, exit 2)
+        s4 = _mk_solver(max(timeout_ms, 10000) * 4)
+        s4.set("smt.mbqi", False)
+        for f in base:
+            s4.add(f)
+        for fa in fas:
+            vs = [z3.Int("q!%d" % k) for k in range(fa.n)]
+            s4.add(z3.ForAll(vs, fa.inst(*vs)))
+        if s4.check() == z3.unsat:
+            return _proved(s4, t0, "ematching (retry with a long budget)")
+        if insts:
+            s5 = _mk_solver(max(timeout_ms, 10000) * 4)
+            for f in base:
+                s5.add(f)
+            for f in insts:
+                s5.add(f)
+            if s5.check() == z3.unsat:
+                return _proved(s5, t0, "index-set instantiation (retry with a long budget)", len(insts))
     return Result("unknown", seconds=time.time() - t0, ninst=len(insts),
                   reason="stage1=%s; no counter-model with all list lengths <= 8 survives validation" % stage1)
 
